@@ -365,6 +365,20 @@ def parallel_history(draw):
          ["num_batches", 2], ["batchsize", 5], ["num_batches", 3]]))
     for s in case["plan"]:
         s["parallel"] = True
+    if case["input"] == "grid" and draw(st.sampled_from([False, False,
+                                                         True])):
+        # an argument named like a parameter of the pool's own submit method
+        taken = {a for a, _ in case["args"]}
+        nm = draw(st.sampled_from(["fn", "f", "args", "executor"]))
+        if nm not in taken:
+            case["args"][0][0] = nm
+            case["constants"].pop(nm, None)
+    # the workers-inside-one-batch route is xyzpy.grow's: always taken once
+    case["plan"].insert(0, {
+        "how": "xyzpy.grow", "ids": draw(st.lists(
+            st.integers(0, 40), min_size=1, max_size=3)),
+        "reload": False, "descending": False, "tuple1": False,
+        "parallel": True})
     return case
 
 
